@@ -15,9 +15,9 @@ func TestCSSrcDump(t *testing.T) {
 		if len(sh) == 0 {
 			continue
 		}
-		fmt.Println("==", f)
+		codec := filepath.Base(filepath.Dir(f))
 		for _, x := range sh {
-			fmt.Printf("%s: %s\n", x.Name, x.Shape)
+			fmt.Printf("SHAPE\t%s\t%s\t%s\t%s\n", csClass(codec, x.Name), codec, x.Name, x.Shape)
 		}
 	}
 }
